@@ -53,7 +53,7 @@ func (prop) Run(t *testing.T, s *sim.Sim, res *runner.Result) {
 // observe evaluates I1 (no leak) and I2 (no duplicate) on the store.
 func observe(w *xrworld.W) {
 	xrs := map[string]map[string]bool{} // uid -> refs
-	live := map[string]string{}          // uid -> name
+	live := map[string]string{}         // uid -> name
 	for _, xr := range w.XRObjects() {
 		if xr.GetDeletionTimestamp() != nil {
 			continue
